@@ -57,6 +57,10 @@ static int c15_only;
 
 static err_t certval(octet* pubkey, const bign_params* params, const octet* data, size_t len)
 {
+	/* a strict validator: it relies on being handed the long-term parameters of the session,
+	   all of them (bake.h), not only the level */
+	if (memcmp(params, CFG.params, sizeof(bign_params)) != 0)
+		return ERR_BAD_PARAMS;
 	if (len < params->l / 2)
 		return ERR_BAD_CERT;
 	if (pubkey)
